@@ -8,6 +8,7 @@ def gen(rng, tier):
     out = []
     for _ in range(250 if tier == "quick" else 6000):
         G, fam = common.random_connected_graph(rng, 1, 6, large_ok=True)
+        if rng.random() < 0.2: G = common.add_isolated(rng, G)          # isolated vertices: zero rows and columns of the Laplacian
         if rng.random() < 0.25 and G["edges"]:
             e = [list(x) for x in G["edges"]]
             for x in e:
